@@ -29,9 +29,30 @@ def seq_specs(tier):
     return out
 
 
+def retry_specs(tier):
+    """Histories with a connection retry: the first fault(s) hit the TCP/TLS stage and are absorbed by `retries`,
+    the last one lands anywhere in the later attempt (fault budget = deviation bound = retries + 1)."""
+    out = []
+    for n in ((1,) if tier == "quick" else (1, 2)):
+        for ct in scen.CONN_TYPES:
+            for variant in ("sync", "async"):
+                for method in ("GET", "POST"):
+                    out.append((n + 1, make_spec("mc.props.seqfault", "SeqFaultHarness", ct=ct, variant=variant, method=method,
+                                                 warm=False, consume="request", retries=n, faults=n + 1)))
+    return out
+
+
 def check(tier="quick", seed=0, workers=None, only=None, pid=PID, prefixes=PREFIXES):
     specs = common.filt(seq_specs(tier), only)
     st = engine.explore_many(specs, workers=workers, bound=1, seed=seed, max_violations=400)
+    rs = retry_specs(tier)
+    n_retry = 0
+    for b in sorted({b for b, _ in rs}):
+        sub = common.filt([s for bb, s in rs if bb == b], only)
+        if sub:
+            n_retry += len(sub)
+            st.merge_from(engine.explore_many(sub, workers=workers, bound=b, seed=seed, max_violations=400))
+    specs = specs + [s for _, s in rs]
     from . import conc
     cst, cinfo = conc.run_for(pid, tier, seed, workers, only)
     from . import rconc
@@ -45,7 +66,8 @@ def check(tier="quick", seed=0, workers=None, only=None, pid=PID, prefixes=PREFI
     cov = evidence.stats_coverage(
         total,
         rule=("sequential part: for every connection type x variant x method x fresh/warm x consumption, every network operation index k "
-              "x every fault kind applicable to it (deviation bound 1 = one fault per execution, complete); concurrent part: see "
+              "x every fault kind applicable to it (deviation bound 1 = one fault per execution, complete), plus retry histories "
+              "(retries=N, N+1 faults: every way of failing N attempts at the TCP/TLS stage and then failing anywhere in the next); concurrent part: see "
               "'concurrent' key; non-trivial = outcome class (victim result, pool repr, probe result, fault@op) of an execution with an injected fault or a cancellation"),
         extra={"sequential": {"scenarios": len(specs), "executions": st.evaluations, "states": st.states},
                "concurrent": cinfo, "trio_world": rinfo, "other_oracles_seen": common.foreign(st, prefixes)})
